@@ -22,6 +22,8 @@ from . import fsutil, oracle
 from .runner import Mismatch
 
 ID_RE = re.compile(r"^[0-9a-f]{32}$")
+# signac's / synced_collections' own temporary and backup names (user files may end in "~" or start with "._" too)
+SIGNAC_TMP_RE = re.compile(r"^(signac_statepoint\.json~|signac_job_document\.json~|signac_project_document\.json~|statepoint_cache\.json\.gz~|\._[0-9a-f-]{36}_signac_.*\.json)$")
 SP_FILE = "signac_statepoint.json"
 DOC_FILE = "signac_job_document.json"
 
@@ -458,6 +460,22 @@ class History:
                 return
         fsutil.write_file(h["job"].fn(name), data.encode("latin-1"))
         mj["files"][name] = data
+
+    def op_append(self, op):
+        """Extend an existing payload file in place (same inode): copies of the job must not see it."""
+        h = self.usable(op)
+        if h is None:
+            return
+        jid = oracle.job_id(h["sp"])
+        mj = self.model[h["p"]].get(jid)
+        name = op.get("name", "f.txt")
+        if mj is None or name not in mj["files"]:
+            return
+        data = str(op.get("data", "x"))
+        with open(h["job"].fn(name), "ab") as f:
+            f.write(data.encode("latin-1"))
+        mj["files"][name] += data
+        self.cl.add("file_modified_in_place")
 
     def op_clear(self, op):
         h = self.usable(op)
@@ -987,7 +1005,7 @@ class History:
             ws = os.path.join(root, "workspace")
             for dirpath, dirnames, filenames in os.walk(root):
                 for fn in filenames + dirnames:
-                    if fn.endswith("~") or fn.startswith("._"):
+                    if SIGNAC_TMP_RE.match(fn):
                         self.mm("leftover", f"leftover temp/backup entry {os.path.relpath(os.path.join(dirpath, fn), root)}")
             for name in sorted(os.listdir(ws)) if os.path.isdir(ws) else []:
                 if name in want or name in self.strays[p] or name in self.planted[p]:
